@@ -34,6 +34,7 @@ def check(chk: Check) -> None:
                         '(int + int gains at most one digit), there is no code shape to check beyond "the operator is linear"']
     chk.trusted += ['decimal.Decimal arithmetic rounds to the context precision or raises (stdlib)']
     seen: Dict[str, Tuple[bool, str, str]] = {}
+    sites: Dict[str, str] = {}
     for label, fi, thunk, ignore, where in units(chk):
         for p in thunk():
             for e in p.events:
@@ -88,13 +89,20 @@ def check(chk: Check) -> None:
                         problems.append('the result of `%s` is rebuilt before it is returned (%s): a conversion through text or int() '
                                         'writes a positive exponent out as digits, so the value that leaves has more than 28 of them'
                                         % (e.op, show(v_)[:160]))
+                root_ = label.split(' -> ')[0].split(' [')[0]
+                arm_ = label[label.index(' [op='):] if ' [op=' in label else ''
+                site_ = 'C04.R1 :: %s%s :: %s' % (root_, arm_, e.op)
                 if problems:
+                    sites[key] = site_
                     seen[key] = (False, wh, '; '.join(problems))
                 else:
                     seen.setdefault(key, (True, wh, 'Decimal(%s) %s Decimal(%s)%s' % (show(la), e.op, show(ra),
                                                                                     ' behind a numeric guard' if e.op == '*' else '')))
     for key, (ok, wh, det) in sorted(seen.items()):
-        chk.require(ok, R1, key, wh, det)
+        if ok:
+            chk.ok(R1, key, wh, det)
+        else:
+            chk.bad(R1, key, wh, det, site=sites.get(key))
 
     # --------------------------------------------------------------------- R2
     tab = functab.table(F)
